@@ -119,8 +119,8 @@ Proof. destruct v; cbn; congruence. Qed.
 Lemma emit_kw_plain r : emit_kw plain_ctx (clear_row r) = Some [plain_entry r].
 Proof.
   destruct r as [p [raw packed]]. rewrite plain_ctx_eq.
-  unfold emit_kw, plain_entry, plainv, clear_row, key_kw, guarded, guard, pval, nullable, default_is_none, default_value; cbn.
-  destruct (p_alias p); destruct (p_tynull p); destruct (p_trivial p); cbn;
+  unfold emit_kw, plain_entry, plainv, clear_row, key_kw, guarded, guard, pval, nullable, p_tynull, default_is_none, default_value; cbn.
+  destruct (p_alias p); destruct (ty_nullable (p_ty p)); destruct (p_trivial p); cbn;
     destruct (is_none raw) eqn:En; cbn; try reflexivity;
     try (apply is_none_true in En; subst; reflexivity);
     destruct (p_default p) as [|[]|]; cbn; try reflexivity;
@@ -133,6 +133,7 @@ Lemma emit_lit_plain r :
 Proof.
   destruct r as [p [raw packed]]. rewrite plain_ctx_eq. intros H.
   unfold emit_lit, plain_entry, plainv, clear_row, key_lit, pval in *; cbn in *.
+  change (nullable (clear_omit p)) with (nullable p).
   destruct (p_alias p); destruct (nullable p); destruct (p_trivial p); cbn in *; try discriminate;
     destruct (is_none raw) eqn:En; cbn; try reflexivity; apply is_none_true in En; subst; reflexivity.
 Qed.
@@ -373,8 +374,8 @@ Definition d14_opts : opts :=
   {| o_call := Some ns_T; o_cfgd := None; o_cfg := ns_unset; o_dd := None; o_sort := false;
      o_fon := true; o_fba := true; o_fdl := true; o_fcx := false; o_kon := None; o_kba := None |}.
 Definition d14_fields : list fplan :=
-  [ {| p_name := "a"; p_alias := None; p_tynull := true; p_trivial := true; p_default := DVal PNone; p_omit := false |};
-    {| p_name := "b"; p_alias := Some "bb"; p_tynull := false; p_trivial := true; p_default := DVal (PInt 1); p_omit := false |} ].
+  [ {| p_name := "a"; p_alias := None; p_ty := TyOptional; p_trivial := true; p_default := DVal PNone; p_omit := false |};
+    {| p_name := "b"; p_alias := Some "bb"; p_ty := TyPlain; p_trivial := true; p_default := DVal (PInt 1); p_omit := false |} ].
 Definition d14_vals : list fval := [(PNone, PNone); (PInt 1, PInt 1)].
 
 Lemma d14_model : to_dict_model d14_opts d14_fields d14_vals = Some [("a", PNone); ("b", PInt 1)].
@@ -394,14 +395,30 @@ Definition nan_opts : opts :=
   {| o_call := None; o_cfgd := None; o_cfg := {| n_on := U; n_od := T; n_ba := U |}; o_dd := None; o_sort := false;
      o_fon := false; o_fba := false; o_fdl := false; o_fcx := false; o_kon := None; o_kba := None |}.
 Definition nan_fields : list fplan :=
-  [ {| p_name := "m"; p_alias := None; p_tynull := true; p_trivial := true; p_default := DVal PNaN; p_omit := false |};
-    {| p_name := "n"; p_alias := None; p_tynull := true; p_trivial := true; p_default := DVal PNaN; p_omit := false |};
-    {| p_name := "s"; p_alias := None; p_tynull := true; p_trivial := true; p_default := DVal PNaN; p_omit := false |} ].
+  [ {| p_name := "m"; p_alias := None; p_ty := TyOptional; p_trivial := true; p_default := DVal PNaN; p_omit := false |};
+    {| p_name := "n"; p_alias := None; p_ty := TyOptional; p_trivial := true; p_default := DVal PNaN; p_omit := false |};
+    {| p_name := "s"; p_alias := None; p_ty := TyOptional; p_trivial := true; p_default := DVal PNaN; p_omit := false |} ].
 Definition nan_vals : list fval := [(PNone, PNone); (PNaN, PNaN); (PStr "q", PStr "q")].
 
 Lemma nan_default_example :
   kw_ok nan_opts = true /\ vals_ok nan_fields nan_vals = true /\ flag_defaults_ok nan_opts = true /\
   to_dict_model nan_opts nan_fields nan_vals = Some [("m", PNone); ("s", PStr "q")].
+Proof. repeat split; reflexivity. Qed.
+
+(* a union of three or more members one of which is None (formerly known finding
+   omit-none-wide-union, repaired in /repo 906a805): nullable like Optional, omit_none drops its None *)
+Definition wide_opts : opts :=
+  {| o_call := None; o_cfgd := None; o_cfg := {| n_on := T; n_od := U; n_ba := U |}; o_dd := None; o_sort := false;
+     o_fon := false; o_fba := false; o_fdl := false; o_fcx := false; o_kon := None; o_kba := None |}.
+Definition wide_fields : list fplan :=
+  [ {| p_name := "u"; p_alias := None; p_ty := TyUnionNone; p_trivial := true; p_default := DNo; p_omit := false |};
+    {| p_name := "o"; p_alias := None; p_ty := TyAnnotated (TyFinal TyOptional); p_trivial := true; p_default := DNo; p_omit := false |};
+    {| p_name := "w"; p_alias := None; p_ty := TyFinal TyUnionNone; p_trivial := false; p_default := DNo; p_omit := false |} ].
+Definition wide_vals : list fval := [(PNone, PNone); (PNone, PNone); (POpq 1, PStr "2020-01-01")].
+
+Lemma wide_union_example :
+  kw_ok wide_opts = true /\ vals_ok wide_fields wide_vals = true /\ flag_defaults_ok wide_opts = true /\
+  to_dict_model wide_opts wide_fields wide_vals = Some [("w", PStr "2020-01-01")].
 Proof. repeat split; reflexivity. Qed.
 
 (* the corner is exactly D14: outside flag_defaults_ok the body still projects, but with the
